@@ -646,7 +646,11 @@ class Connection(ExportImport):
 
             # if we write an object, we don't want to check if it was read
             # while current.  This is a convenient choke point to do this.
-            self._readCurrent.pop(oid, None)
+            # (A store into a savepoint may still be rolled back, and then
+            # the object is a mere dependency again: _commit_savepoint does
+            # it for what is really written.)
+            if self._savepoint_storage is None:
+                self._readCurrent.pop(oid, None)
             if s:
                 # savepoint
                 obj._p_changed = 0  # transition from changed to up-to-date
